@@ -1,1 +1,150 @@
-(** Props/C06.v — placeholder, to be written. *)
+(** Props/C06.v — retry attempts, error filters and the back-off sleep schedule.
+    The loop driver is the same [poll] as for while: C05_while_ends_on_stop (success ends the
+    loop, no sleep after), C05_while_ends_on_max, C05_while_sleeps_between (exactly the
+    strategy's duration for that attempt number, between attempts only) apply verbatim with
+    [iter := retry_iter] and [interval := backoff ...]; they are restated here for retry. *)
+From PV Require Import Engine EngineProofs.
+From Coq Require Import QArith.
+Open Scope string_scope.
+Notation RG := (list val -> option string -> option string -> st -> R).
+Notation RP := (string -> option (list val) -> option string -> option string -> st -> R).
+
+(** attempt n runs with retryCounter = n; success ends the loop *)
+Theorem C06_attempt_success : forall (rg : RG) (rp : RP) rc sp k max n s s1,
+  invoke rg rp sp (mkcnt (k_while k) (k_for k) (Some n))
+         (set_ctx s (sset "retryCounter" (VInt n) (ctx s))) = (OOk, s1) ->
+  retry_iter rg rp rc sp k max n s = (IDone true, s1).
+Proof. exact retry_iter_ok. Qed.
+Print Assumptions C06_attempt_success.
+
+Theorem C06_no_sleep_after_success : forall fuel iter interval max i s s1,
+  iter (i + 1)%Z s = (IDone true, s1) ->
+  poll (S fuel) iter interval max i s = (IDone true, s1).
+Proof. exact poll_done. Qed.
+Print Assumptions C06_no_sleep_after_success.
+
+(** the error of attempt number max propagates, as that very error, with no sleep after it *)
+Theorem C06_last_attempt_error_propagates : forall (rg : RG) (rp : RP) rc sp k m n s name msg eid s1,
+  invoke rg rp sp (mkcnt (k_while k) (k_for k) (Some n))
+         (set_ctx s (sset "retryCounter" (VInt n) (ctx s))) = (ORaise (RExn name msg eid), s1) ->
+  m <> 0%Z -> n = m ->
+  retry_iter rg rp rc sp k (Some m) n s = (IRaise (ORaise (RExn name msg eid)), s1).
+Proof. exact retry_iter_at_max. Qed.
+Print Assumptions C06_last_attempt_error_propagates.
+
+Theorem C06_no_sleep_after_last_attempt : forall fuel iter interval max i s o s1,
+  iter (i + 1)%Z s = (IRaise o, s1) ->
+  poll (S fuel) iter interval max i s = (IRaise o, s1).
+Proof. exact poll_raise. Qed.
+Print Assumptions C06_no_sleep_after_last_attempt.
+
+(** below max, without filters, a failure is absorbed and the step is attempted again ... *)
+Theorem C06_failure_below_max_retries : forall (rg : RG) (rp : RP) rc sp k max n s name msg eid s1,
+  invoke rg rp sp (mkcnt (k_while k) (k_for k) (Some n))
+         (set_ctx s (sset "retryCounter" (VInt n) (ctx s))) = (ORaise (RExn name msg eid), s1) ->
+  (max = None \/ max = Some 0%Z \/ exists m, max = Some m /\ n <> m) ->
+  opt_truth (r_stopon rc) = false -> opt_truth (r_retryon rc) = false ->
+  retry_iter rg rp rc sp k max n s = (IDone false, s1).
+Proof. exact retry_iter_absorbed. Qed.
+Print Assumptions C06_failure_below_max_retries.
+
+(** ... after exactly one sleep of the strategy's duration for that attempt number *)
+Theorem C06_sleep_between_attempts : forall fuel iter interval max i s s1 d,
+  iter (i + 1)%Z s = (IDone false, s1) -> interval (Z.to_nat (i + 1)) = Some d ->
+  (max = None \/ max = Some 0%Z \/ exists m, max = Some m /\ (i + 1 < m)%Z) ->
+  poll (S fuel) iter interval max i s = poll fuel iter interval max (i + 1)%Z (add_sleep s1 d).
+Proof. exact poll_again. Qed.
+Print Assumptions C06_sleep_between_attempts.
+
+(** stopOn: a listed error propagates at once *)
+Theorem C06_stop_on : forall (rg : RG) (rp : RP) rc sp k max n s name msg eid s1 l fl,
+  invoke rg rp sp (mkcnt (k_while k) (k_for k) (Some n))
+         (set_ctx s (sset "retryCounter" (VInt n) (ctx s))) = (ORaise (RExn name msg eid), s1) ->
+  (max = None \/ max = Some 0%Z \/ exists m, max = Some m /\ n <> m) ->
+  r_stopon rc = Some l -> py_truth l = true -> fmt s1 l = Ok (VList fl) ->
+  py_in (VStr name) fl = true ->
+  retry_iter rg rp rc sp k max n s = (IRaise (ORaise (RExn name msg eid)), s1).
+Proof. exact retry_iter_stop_on. Qed.
+Print Assumptions C06_stop_on.
+
+(** retryOn: an error not listed in a non-empty retryOn propagates at once *)
+Theorem C06_retry_on : forall (rg : RG) (rp : RP) rc sp k max n s name msg eid s1 l fl,
+  invoke rg rp sp (mkcnt (k_while k) (k_for k) (Some n))
+         (set_ctx s (sset "retryCounter" (VInt n) (ctx s))) = (ORaise (RExn name msg eid), s1) ->
+  (max = None \/ max = Some 0%Z \/ exists m, max = Some m /\ n <> m) ->
+  opt_truth (r_stopon rc) = false ->
+  r_retryon rc = Some l -> py_truth l = true -> fmt s1 l = Ok (VList fl) ->
+  py_in (VStr name) fl = false ->
+  retry_iter rg rp rc sp k max n s = (IRaise (ORaise (RExn name msg eid)), s1).
+Proof. exact retry_iter_not_retry_on. Qed.
+Print Assumptions C06_retry_on.
+
+(** the strategies, for every attempt number n, sleep s, cap, base *)
+Theorem C06_fixed : forall q mx jrc r base n,
+  backoff "fixed" (VFloat q) mx jrc r base n = Some (qmin_opt q mx).
+Proof. exact backoff_fixed_scalar. Qed.
+Print Assumptions C06_fixed.
+
+Theorem C06_fixed_list : forall l mx jrc r base n v q,
+  nth_error l (n - 1) = Some v -> q_of v = Ok q ->
+  backoff "fixed" (VList l) mx jrc r base n = Some (qmin_opt q mx).
+Proof. exact backoff_fixed_list. Qed.
+Print Assumptions C06_fixed_list.
+
+Theorem C06_fixed_list_last_repeats : forall l mx jrc r base n q,
+  l <> [] -> nth_error l (n - 1) = None -> q_of (last l VNone) = Ok q ->
+  backoff "fixed" (VList l) mx jrc r base n = Some (qmin_opt q mx).
+Proof. exact backoff_fixed_list_beyond. Qed.
+Print Assumptions C06_fixed_list_last_repeats.
+
+Theorem C06_linear : forall s q mx jrc r base n,
+  q_of s = Ok q ->
+  backoff "linear" s mx jrc r base n = Some (qmin_opt (inject_Z (Z.of_nat n) * q) mx).
+Proof. exact backoff_linear. Qed.
+Print Assumptions C06_linear.
+
+Theorem C06_exponential : forall s q mx jrc r base n,
+  q_of s = Ok q ->
+  backoff "exponential" s mx jrc r base n = Some (qmin_opt (qpow base n * q) mx).
+Proof. exact backoff_exponential. Qed.
+Print Assumptions C06_exponential.
+
+(** capped by sleepMax *)
+Theorem C06_cap : forall x m,
+  ~ m == 0 -> qmin_opt x (Some m) <= m /\ qmin_opt x (Some m) <= x
+              /\ (qmin_opt x (Some m) = x \/ qmin_opt x (Some m) = m).
+Proof. exact qmin_opt_cap. Qed.
+Print Assumptions C06_cap.
+
+(** jitter is applied to the capped duration d ... *)
+Theorem C06_jitter_after_cap : forall s mx jrc r base n,
+  backoff "jitter" s mx jrc r base n = option_map (jitter_q jrc r) (backoff "fixed" s mx jrc r base n)
+  /\ backoff "linearjitter" s mx jrc r base n
+     = option_map (jitter_q jrc r) (backoff "linear" s mx jrc r base n)
+  /\ backoff "exponentialjitter" s mx jrc r base n
+     = option_map (jitter_q jrc r) (backoff "exponential" s mx jrc r base n).
+Proof. exact backoff_jitter_after_cap. Qed.
+Print Assumptions C06_jitter_after_cap.
+
+(** ... and stays within [jrc*d, d] for every draw r in [0,1] *)
+Theorem C06_jitter_bounds : forall jrc r d,
+  0 <= jrc -> jrc <= 1 -> 0 <= r -> r <= 1 -> 0 <= d ->
+  jrc * d <= jitter_q jrc r d /\ jitter_q jrc r d <= d.
+Proof. exact jitter_bounds. Qed.
+Print Assumptions C06_jitter_bounds.
+
+(** * Non-vacuity: fails while retryCounter < 3, linear back-off 1/2 capped at 3/4 *)
+Definition lib6 : library :=
+  [("main", [("steps", Some [
+      mkstep "vfail" BFail
+             (Some [(VStr "vfail", VDict [(VStr "err", VStr "ValueError"); (VStr "msg", VStr "x");
+                     (VStr "when", VPy "(retryCounter < 3)" (ECmp CLt (EName "retryCounter") (EInt 3)))])])
+             None None
+             (Some (mkr (Some (VInt 4)) (VFloat (1 # 2)) (Some (VStr "linear")) None (VInt 0)
+                        (Some (VFloat (3 # 4))) None None))
+             (VBool true) (VBool false) (VBool false) None (Some (1, 5)%Z)])])].
+Example C06_nonvacuous :
+  let r := api_run EFUEL lib6 "main" [] None None None (1 # 4) in
+  fst r = OOk /\ sleeps (snd r) = [1 # 2; 3 # 4] /\ sget "retryCounter" (ctx (snd r)) = Some (VInt 3)
+  /\ sget "runErrors" (ctx (snd r)) = None.
+Proof. vm_compute. repeat split; reflexivity. Qed.
